@@ -247,6 +247,14 @@ class RefInterp:
                 label, ext = res.metadata["filename"], res.metadata["extension"]
             else:
                 value = res
+            if getattr(self, "isolate", False):
+                # "each action receives the previous result": by value - what a command does to its input in place,
+                # or to a variable it was handed as its input, is its own business
+                try:
+                    value = copy.deepcopy(value)
+                    vars_ = copy.deepcopy(vars_)
+                except Exception:
+                    pass
             if ctx is not None and ctx.cache_disabled:
                 caching = False
             volatile = volatile or bool(cmd_attrs.get("volatile", False))
